@@ -86,6 +86,9 @@ func Run(s Script, base world.Cfg, opt Options, out io.Writer) (*world.World, er
 		if !opt.NoPost {
 			line["post"] = w.Project()
 		}
+		if opt.NoPost && s.Family == "bulk" && w.Dead == "" {
+			line["sum"] = w.Summary()
+		}
 		if opt.Digest && w.Dead == "" {
 			line["digest"] = w.Digest()
 		}
